@@ -261,7 +261,12 @@ func cmdAbi(args []string) error {
 	}
 
 	// nested: wrapper contracts W1 -> W2 -> ... -> <kind> precompile
-	runNested := func(fork string, kind int, depth int, addr uint64, input []byte, class string) {
+	// via: how the LAST wrapper is reached from the one before it (0 CALL, 1 CALLCODE, 2 DELEGATECALL): with 1 and 2 its code
+	// runs in the context of the wrapper before it (proxy / library), which is then the caller of the precompile
+	runNested := func(fork string, kind int, depth int, addr uint64, input []byte, class string, via int) {
+		if depth < 2 {
+			via = 0
+		}
 		env := impl.NewEnv(impl.Opts{Fork: fork, JP: false})
 		pre := common.BigToAddress(new(big.Int).SetUint64(addr))
 		ws := make([]common.Address, depth)
@@ -274,7 +279,14 @@ func cmdAbi(args []string) error {
 			b.Op(asm.CALLDATASIZE).Push(0).Push(0).Op(asm.CALLDATACOPY)
 			if i+1 < depth {
 				// CALL next wrapper, forward returndata
-				b.Push(0).Push(0).Op(asm.CALLDATASIZE).Push(0).Push(0).PushAddr(ws[i+1]).Op(asm.GAS).Op(asm.CALL)
+				switch {
+				case i+1 == depth-1 && via == 1:
+					b.Push(0).Push(0).Op(asm.CALLDATASIZE).Push(0).Push(0).PushAddr(ws[i+1]).Op(asm.GAS).Op(asm.CALLCODE)
+				case i+1 == depth-1 && via == 2:
+					b.Push(0).Push(0).Op(asm.CALLDATASIZE).Push(0).PushAddr(ws[i+1]).Op(asm.GAS).Op(asm.DELEGATECALL)
+				default:
+					b.Push(0).Push(0).Op(asm.CALLDATASIZE).Push(0).Push(0).PushAddr(ws[i+1]).Op(asm.GAS).Op(asm.CALL)
+				}
 				b.Op(asm.POP)
 				b.Op(asm.RETURNDATASIZE).Push(0).Push(0).Op(asm.RETURNDATACOPY)
 				b.Op(asm.RETURNDATASIZE).Push(0).Op(asm.RETURN)
@@ -304,7 +316,12 @@ func cmdAbi(args []string) error {
 		pan := impl.Guard(func() {
 			ret, _, err = env.EVM.Call(context.Background(), vm.AccountRef(callerAddr), ws[0], input, 10_000_000, big.NewInt(0))
 		})
-		cs := abiCase{Idx: len(cases), Class: class, Fork: fork, Kind: kind, Depth: depth, Caller: hex.EncodeToString(ws[depth-1].Bytes()),
+		issuer := ws[depth-1]
+		if via != 0 {
+			issuer = ws[depth-2]
+			class += fmt.Sprintf("-via%d", via)
+		}
+		cs := abiCase{Idx: len(cases), Class: class, Fork: fork, Kind: kind, Depth: depth, Caller: hex.EncodeToString(issuer.Bytes()),
 			Addr: addr, Input: hex.EncodeToString(input), Gas: 1 << 40, Calls: append([]hostCall{}, *hostLog...), CmpGas: false}
 		switch {
 		case pan != "":
@@ -340,7 +357,9 @@ func cmdAbi(args []string) error {
 		runTop("Cancun", kind, 0x66, nil, 100000, "corpus-empty")
 		runTop("Cancun", kind, 0x66, base[:127], 100000, "corpus-short")
 		for d := 1; d <= 3; d++ {
-			runNested("Berlin", kind, d, 0x66, base, "corpus-nested")
+			for via := 0; via < 3; via++ {
+				runNested("Berlin", kind, d, 0x66, base, "corpus-nested", via)
+			}
 		}
 	}
 	for i := 0; i < c.n; i++ {
@@ -358,7 +377,7 @@ func cmdAbi(args []string) error {
 			runTop(fork, kind, 0x65, in, gas, "userop")
 		case 2:
 			class, p := genCtxWriterPayload(r)
-			runNested(fork, kind, 1+r.Intn(3), 0x66, p, "nested-"+class)
+			runNested(fork, kind, 1+r.Intn(3), 0x66, p, "nested-"+class, r.Intn(3))
 		default:
 			class, p := genCtxWriterPayload(r)
 			runTop(fork, kind, 0x66, p, gas, class)
